@@ -131,6 +131,16 @@ fn main() {
             if args.len() < 4 {
                 usage();
             }
+            // a case observed on the build with the shipped profile is replayed on that build
+            if std::env::var("VERIF_SHADOW").is_err() {
+                let shipped_case = std::fs::read_to_string(&args[3]).ok().and_then(|t| serde_json::from_str::<serde_json::Value>(&t).ok()).map(|v| v["case"]["profile"] == "shipped").unwrap_or(false);
+                if shipped_case {
+                    if let Ok(bin) = std::env::var("VERIF_SHIPPED_WMON") {
+                        let st = std::process::Command::new(bin).args(["replay", &args[2], &args[3]]).env("VERIF_SHADOW", "2").status();
+                        std::process::exit(st.ok().and_then(|s| s.code()).unwrap_or(2));
+                    }
+                }
+            }
             let code = mon::run_replay(&args[2], &args[3]);
             std::process::exit(code);
         }
